@@ -1047,6 +1047,8 @@ static int gen_builder_struct_field_assign(fb_output_t *out, fb_compound_type_t 
     int n, len;
     const char *s;
     int deprecated_index = 0;
+    /* Arguments are not generated for deprecated members: `index - skipped` is the argument number. */
+    int skipped = 0;
     const char *kind, *tprefix;
     fb_scoped_name_t snref;
 
@@ -1076,6 +1078,7 @@ static int gen_builder_struct_field_assign(fb_output_t *out, fb_compound_type_t 
                         nsc, deprecated_index);
                 ++deprecated_index;
                 ++index;
+                ++skipped;
                 continue;
             }
             if (from_ptr) {
@@ -1083,7 +1086,7 @@ static int gen_builder_struct_field_assign(fb_output_t *out, fb_compound_type_t 
                         snref.text, kind, n, s, n, s, len);
             } else {
                 fprintf(out->fp, "%s_array_copy%s(p->%.*s, v%i, %d)",
-                        snref.text, kind, n, s, index, len);
+                        snref.text, kind, n, s, index - skipped, len);
             }
             ++index;
             continue;
@@ -1095,6 +1098,7 @@ static int gen_builder_struct_field_assign(fb_output_t *out, fb_compound_type_t 
                             nsc, deprecated_index);
                     deprecated_index++;
                     index += get_total_struct_field_count(member->type.ct);
+                    skipped += get_total_struct_field_count(member->type.ct);
                     continue;
                 }
                 if (from_ptr) {
@@ -1103,7 +1107,7 @@ static int gen_builder_struct_field_assign(fb_output_t *out, fb_compound_type_t 
                     ++index;
                 } else {
                     fprintf(out->fp, "%s_assign%s(&p->%.*s", snref.text, kind, n, s);
-                    index = gen_builder_struct_call_list(out, member->type.ct, index, arg_count, 0);
+                    index = skipped + gen_builder_struct_call_list(out, member->type.ct, index - skipped, arg_count, 0);
                     fprintf(out->fp, ")");
                 }
                 continue;
@@ -1113,6 +1117,7 @@ static int gen_builder_struct_field_assign(fb_output_t *out, fb_compound_type_t 
                         nsc, deprecated_index);
                 ++deprecated_index;
                 ++index;
+                ++skipped;
                 continue;
             }
             switch (member->size == 1 ? no_conversion : conversion) {
@@ -1122,7 +1127,7 @@ static int gen_builder_struct_field_assign(fb_output_t *out, fb_compound_type_t 
                             snref.text, n, s, n, s);
                 } else {
                     fprintf(out->fp, "%s_assign_from_pe(&p->%.*s, v%i)",
-                            snref.text, n, s, index);
+                            snref.text, n, s, index - skipped);
                 }
                 break;
             case convert_to_pe:
@@ -1131,14 +1136,14 @@ static int gen_builder_struct_field_assign(fb_output_t *out, fb_compound_type_t 
                             snref.text, n, s, n, s);
                 } else {
                     fprintf(out->fp, "%s_assign_to_pe(&p->%.*s, v%i)",
-                            snref.text, n, s, index);
+                            snref.text, n, s, index - skipped);
                 }
                 break;
             default:
                 if (from_ptr) {
                     fprintf(out->fp, "p->%.*s = p2->%.*s", n, s, n, s);
                 } else {
-                    fprintf(out->fp, "p->%.*s = v%i", n, s, index);
+                    fprintf(out->fp, "p->%.*s = v%i", n, s, index - skipped);
                 }
                 break;
             }
@@ -1152,6 +1157,7 @@ static int gen_builder_struct_field_assign(fb_output_t *out, fb_compound_type_t 
                         nsc, deprecated_index);
                 ++deprecated_index;
                 ++index;
+                ++skipped;
                 continue;
             }
             if (from_ptr) {
@@ -1159,7 +1165,7 @@ static int gen_builder_struct_field_assign(fb_output_t *out, fb_compound_type_t 
                         nsc, tprefix, kind, n, s, n, s, len);
             } else {
                 fprintf(out->fp, "%s%s_array_copy%s(p->%.*s, v%i, %d)",
-                        nsc, tprefix, kind, n, s, index, len);
+                        nsc, tprefix, kind, n, s, index - skipped, len);
             }
             ++index;
             break;
@@ -1170,6 +1176,7 @@ static int gen_builder_struct_field_assign(fb_output_t *out, fb_compound_type_t 
                         nsc, deprecated_index);
                 ++deprecated_index;
                 ++index;
+                ++skipped;
                 continue;
             }
             switch (member->size == 1 ? no_conversion : conversion) {
@@ -1179,7 +1186,7 @@ static int gen_builder_struct_field_assign(fb_output_t *out, fb_compound_type_t 
                             nsc, tprefix, n, s, n, s);
                 } else {
                     fprintf(out->fp, "%s%s_assign_from_pe(&p->%.*s, v%i)",
-                            nsc, tprefix, n, s, index);
+                            nsc, tprefix, n, s, index - skipped);
                 }
                 break;
             case convert_to_pe:
@@ -1188,14 +1195,14 @@ static int gen_builder_struct_field_assign(fb_output_t *out, fb_compound_type_t 
                             nsc, tprefix, n, s, n, s);
                 } else {
                     fprintf(out->fp, "%s%s_assign_to_pe(&p->%.*s, v%i)",
-                            nsc, tprefix, n, s, index);
+                            nsc, tprefix, n, s, index - skipped);
                 }
                 break;
             default:
                 if (from_ptr) {
                     fprintf(out->fp, "p->%.*s = p2->%.*s", n, s, n, s);
                 } else {
-                    fprintf(out->fp, "p->%.*s = v%i", n, s, index);
+                    fprintf(out->fp, "p->%.*s = v%i", n, s, index - skipped);
                 }
                 break;
             }
